@@ -211,6 +211,18 @@ func (a Attr) UnmarshalToType(data []byte) (any, error) {
 		return GetZeroValue(a.Type, a.Nullable), nil
 	}
 
+	// encoding/json leaves the target untouched when it unmarshals null, so
+	// null would be accepted as the zero value of strings and times. It is
+	// still accepted for bytes because that is how an empty slice of bytes
+	// is marshaled.
+	if string(data) == "null" && a.Type != AttrTypeBytes {
+		return nil, NewErrInvalidFieldValueInBody(
+			a.Name,
+			string(data),
+			GetAttrTypeString(a.Type, a.Nullable),
+		)
+	}
+
 	var (
 		v   any
 		err error
